@@ -627,8 +627,9 @@ func (a *segment) Persist(file File, options *StoreOptions) (rv SegmentLoc, err 
 // loadBasicSegment loads a basic segment.
 func loadBasicSegment(sloc *SegmentLoc) (Segment, error) {
 	var kvs []uint64
-	var buf []byte
 	var err error
+
+	buf := []byte{} // Never nil: a nil val means "key absent" to callers.
 
 	if sloc.KvsBytes > 0 {
 		if sloc.KvsBytes > uint64(len(sloc.mref.buf)) {
